@@ -50,6 +50,10 @@ def random_doc_input(rng, algo, max_obj=5, max_sp=4):
     no = rng.randint(1, max_obj)
     style = rng.choice(["unnamed", "named", "partial", "lookalike"])
     sp_names = rng.sample(["X", "Y", "Zed", "alpha", "B2", "hs", "Mm", "C"], ns)
+    if ns >= 2 and rng.random() < 0.15:
+        # a species name with an underscore, and sometimes one that extends another species name (`X` and `X_b`): the
+        # documented rule (first matching prefix) then decides, and leaves of `X_b` need an explicit assignment
+        sp_names[0] = rng.choice(["H_sap", "M_mus", sp_names[1] + "_b"])
     from rv.refmodel import trees as RT
 
     S = RT.random_tree_shape(rng, sp_names)
@@ -128,6 +132,18 @@ def expected_names(nested_text, prefix):
     return M, names
 
 
+def documented_species_of(leaf_name, species_names):
+    """The documented convention for leaf names: `<species>_<suffix>`, matched case-insensitively; when species names
+    contain underscores, the FIRST prefix (shortest) that is followed by an underscore and names a species wins."""
+    low = {s.lower(): s for s in species_names}
+    parts = leaf_name.split("_")
+    for i in range(1, len(parts)):
+        pre = "_".join(parts[:i]).lower()
+        if pre in low:
+            return low[pre]
+    return None
+
+
 def judge_line(case, obj, printed_min, binary=True):
     """-> list of (monitor, msg)"""
     fails = []
@@ -135,6 +151,17 @@ def judge_line(case, obj, printed_min, binary=True):
     for p in sol["problems"]:
         fails.append(("naming", p))
     data = case["data"]
+    # the leaf assignment written with the solution: the given one, or the one the documented naming convention implies
+    from rv.refmodel import newick as _nw
+
+    sp_leaves = [sol["S"].name[v] for v in sol["S"].leaves()]
+    given = data.get("leaf_object_species")
+    written = {sol["G"].name[g]: sol["S"].name[s] for g, s in sol["leafmap"].items()}
+    for g in (sol["G"].name[v] for v in sol["G"].leaves()):
+        want_sp = given[g] if given is not None else documented_species_of(g, sp_leaves)
+        if want_sp is not None and written.get(g) != want_sp:
+            fails.append(("assignment", f"leaf {g!r} is written in species {written.get(g)!r}, " + ("the input file assigns it to" if given is not None else "the documented naming convention puts it in") + f" {want_sp!r}"))
+            break
     for key, prefix, W in (("object_tree", "O", sol["G"]), ("species_tree", "S", sol["S"])):
         M, want = expected_names(data[key], prefix)
         if binary:
